@@ -111,6 +111,11 @@ def regen(prop_cfg):
 def lake_build(target, timeout=1500):
     t0 = time.time()
     rc, out, err = sh(["lake", "build", target], cwd=LEAN, timeout=timeout)
+    if rc != 0:
+        # a second lake process working in the same directory can make a build fail transiently;
+        # a genuine failure fails again
+        time.sleep(1.0)
+        rc, out, err = sh(["lake", "build", target], cwd=LEAN, timeout=timeout)
     txt = out + err
     errors = [l for l in txt.splitlines() if l.startswith("error:")]
     return rc == 0, {"rc": rc, "wall_s": round(time.time() - t0, 2), "errors": errors[:40], "tail": txt[-3000:] if rc else ""}
